@@ -118,6 +118,47 @@ def conv_unequal_dilation(c):
     return c["op"] == "conv2d" and len(set(c["args"]["dilation"])) > 1
 
 
+REAL_OPS = ("softmax", "softmin", "batch_norm", "layer_norm", "instance_norm", "group_norm", "bilinear", "pairwise_distance", "cosine_similarity")
+
+
+def real_cases(ck, tier):
+    """Real-valued routines on small integer data (fixed-point reference in NNReal.tla); tol in units of 1/1024."""
+    r = ck.rng; out = []
+    quick = tier == "quick"
+    def vals(n, lo, hi): return [r.randint(lo, hi) for _ in range(n)]
+    def C(op, shapes, data, **args): out.append(dict(op=op, shapes=shapes, data=data, args=args))
+    reps = 2 if quick else 8
+    for _ in range(reps):
+        for s in ([4], [2, 3], [2, 3, 2], [1, 5], [3, 1, 2]):
+            for ax in range(-len(s), len(s)):
+                for op in ("softmax", "softmin"):
+                    C(op, [s], [vals(prod(s), -4, 4)], axis=ax, tol=3)
+        for s, c in (([1, 2, 2, 2], 2), ([2, 3, 2, 2], 3), ([2, 1, 3, 2], 1), ([3, 2, 2], 3), ([2, 4, 1, 3], 4)):
+            C("batch_norm", [s, [c], [c], [c], [c]], [vals(prod(s), -5, 5), vals(c, -2, 2), [r.choice([1, 4, 9, 16]) for _ in range(c)], vals(c, -2, 3), vals(c, -2, 2)], tol=3)
+        for s, w in (([2, 3, 4], [4]), ([2, 3, 4], [3, 4]), ([2, 3], [3]), ([5], [5]), ([2, 2, 3, 2], [3, 2]), ([2, 2, 3, 2], [2, 3, 2])):
+            C("layer_norm", [s, w, w], [vals(prod(s), -5, 5), vals(prod(w), -2, 3), vals(prod(w), -2, 2)], tol=48)
+        for s, nd in (([2, 3, 4], 1), ([1, 2, 5], 1), ([1, 2, 2, 3], 2), ([2, 3, 2, 2], 2), ([3, 2, 2], 2)):
+            c = s[len(s) - nd - 1]
+            C("instance_norm", [s, [c], [c]], [vals(prod(s), -5, 5), vals(c, -2, 3), vals(c, -2, 2)], nd=nd, tol=48)
+        for s in ([1, 2, 2, 2], [2, 4, 2, 1], [2, 4, 3], [1, 6, 2], [2, 3, 2, 2]):
+            c = s[1]
+            for G in [d for d in range(1, c + 1) if c % d == 0]:
+                if (c // G) * prod(s[2:]) > 12: continue
+                C("group_norm", [s, [c], [c]], [vals(prod(s), -5, 5), vals(c, -2, 3), vals(c, -2, 2)], groups=G, tol=48)
+        for b, i1, i2, o in (([2], 2, 3, 2), ([3], 3, 2, 1), ([2, 2], 2, 2, 3), ([1], 1, 4, 2), ([], 3, 3, 2)):
+            for bias in (False, True):
+                if not b: continue          # the batch axes are required by the view
+                shapes = [b + [i1], b + [i2], [o, i1, i2]] + ([[o]] if bias else [])
+                C("bilinear", shapes, [vals(prod(x), -3, 3) for x in shapes], bias=bias)
+        for s in ([3, 4], [2, 3, 2], [5], [1, 3], [2, 2, 2, 2]):
+            for kd in (False, True):
+                C("pairwise_distance", [s, s], [vals(prod(s), -4, 4), vals(prod(s), -4, 4)], keepdims=kd, tol=8)
+            for ax in range(-len(s), len(s)):
+                a = vals(prod(s), -4, 4); b = vals(prod(s), -4, 4)
+                C("cosine_similarity", [s, s], [[v or 1 for v in a], [v or 2 for v in b]], axis=ax, tol=8)
+    return out
+
+
 def run(tier, seed):
     ck = Check("C17", tier, seed)
     quick = tier == "quick"
@@ -130,15 +171,22 @@ def run(tier, seed):
     cases = opslib.number(tab)
     drv = vlib.build_driver("drv_nn")
     opslib.run_ops(ck, drv, cases, want="valid", label="nn", describe=lambda c, k: f"{c['op']} {k}")
+    rc = opslib.number(real_cases(ck, tier), start=len(cases))
+    opslib.run_ops(ck, vlib.build_driver("drv_nnreal"), rc, want="valid", label="nnreal", describe=lambda c, k: f"{c['op']} {k}")
+    cases += rc
+    ck.extra["real_valued_cases"] = len(rc)
     ck.nontrivial_count = len({vlib.canon([c["op"], c["shapes"], c["args"]]) for c in cases})
     ck.rule = ("cases = conv2d/conv1d over kernels 1..3, strides 1..3 (equal and unequal per axis), zero padding 0..2, dilation 1..2, channel/group configurations with every divisor as groups, "
                "batch 1..2, bias on/off, arguments as lists, scalars and defaults, all combinations with a positive output size (quick: every third); max/avg pooling over kernels 1..3, strides 1..3, "
-               "ceil mode on/off with overhanging windows, 2..4-d inputs; linear with/without bias; integer data, every sum exact; avg pooling compared after scaling by kh!*kw!")
+               "ceil mode on/off with overhanging windows, 2..4-d inputs; linear with/without bias; integer data, every sum exact; avg pooling compared after scaling by kh!*kw!; "
+               "real-valued routines on small integer data against the fixed-point reference of NNReal.tla (values x 1024, tolerance 3 for softmax/softmin over every axis and batch_norm with square variances, "
+               "48 for layer/instance/group normalisation (integer square root with 8 fractional bits), 8 for pairwise_distance / cosine_similarity; bilinear exact)")
     ck.exhaustive = True
-    ck.assumptions += ["softmax/softmin, the normalisation layers, bilinear, pairwise_distance and cosine_similarity involve exp/sqrt/division that TLC cannot evaluate; they are not decided by this check (see DESIGN.md, limits)"]
+    ck.assumptions += ["the real-valued routines are decided in fixed point: exp from a table of mathematical constants, sqrt from an integer square root; the tolerance (<= 4.7 % of one unit) separates wiring defects (wrong axis, wrong channel, wrong group) but not accuracy defects, which this family does not decide",
+                       "the eps terms (1e-5 .. 1e-8) are below the tolerance on the data of the scope"]
     for c in cases[:2] + cases[-2:]: ck.sample({k: v for k, v in c.items() if k != "data"})
     return ck.finish()
 
 
 def replay(rec):
-    return opslib.replay_ops(rec, "drv_nn")
+    return opslib.replay_ops(rec, "drv_nnreal" if rec["case"].get("op") in REAL_OPS else "drv_nn")
